@@ -85,6 +85,13 @@ def run(P, C, tier):
             st = [(bi, sql.norm(t)) for bi, _, t, _, _ in sql.statements(b) if t]
             dels = [(bi, t) for bi, t in st if re.search(r"DELETE\s+FROM\s+%s\b" % table, t, re.I)]
             ok = len(dels) == 1 and re.search(keyre, dels[0][1], re.I) is not None
+            if ok:
+                # the row is addressed by its identity only: no further condition (a version or date test would leave
+                # an older or newer stored version of the deleted row in place)
+                where = re.split(r"\bWHERE\b", dels[0][1], flags=re.I)[1]
+                cols = set(re.findall(r"([A-Za-z_][A-Za-z_0-9]*)\s*=\s*\?", where))
+                want_cols = {"room_id", "id"} if table == "_node" else {"src", "src_entity", "label", "dest", "cdate"}
+                ok = cols == want_cols
             ex = b.calls_to(r"Statement.*::execute$")
             wr = b.calls_to(r"Writeable>::write$|::write$")
             same_iter = False
@@ -95,6 +102,6 @@ def run(P, C, tier):
                 same_iter = h1 is not None and h1 == h2
                 for bi, t in ex + wr:
                     same_iter = same_iter and mir.result_edges(b, bi) is not None
-            C.ob("R3", "apply:" + fn.split("::")[-2], ok and same_iter, b.loc(), "DELETE FROM %s keyed by the record, and the record written, in the same iteration with errors propagated: %s/%s" % (table, ok, same_iter))
+            C.ob("R3", "apply:" + fn.split("::")[-2], ok and same_iter, b.loc(), "DELETE FROM %s addressed by exactly the identity columns of the record (no version/date condition), and the record written, in the same iteration with errors propagated: %s/%s" % (table, ok, same_iter))
         except mir.MissingAnchor as e:
             C.anchor_missing("R3", fn, e)
